@@ -1,4 +1,6 @@
 """C07 - the construction API never leaves an illegally wired circuit."""
+import zlib
+
 from rv.gen import circuits as G
 from rv.oracle.sim import Net
 
@@ -93,9 +95,21 @@ def gen(rng, ctx):
         k = rng.choice(["add", "add", "add", "add_uid", "connect", "connect", "connect", "disconnect", "remove", "set_output", "add_blackbox", "add_subcircuit", "fill_blackbox", "targeted"])
         if k == "targeted":
             # calls aimed at one wiring rule, built from the (approximate) types of the live nodes
-            t = rng.choice(["bbout_to_bufs", "second_driver", "into_source", "from_bbin", "bbout_to_gate", "fresh_bufs_then_bbout", "bb_conn_list", "add_bbout_fanout", "two_pins_one_buf", "pin_replaced_then_fill", "fill_nested_name_taken", "fill_nested_name_taken"])
+            t = rng.choice(["bbout_to_bufs", "second_driver", "into_source", "from_bbin", "bbout_to_gate", "fresh_bufs_then_bbout", "bb_conn_list", "add_bbout_fanout", "two_pins_one_buf", "pin_replaced_then_fill", "fill_nested_name_taken", "fill_nested_name_taken", "unknown_pin_names_node"])
             bo, bi = of_type("bb_output"), of_type("bb_input")
             bufs = [n for n in live if ltype.get(n) == "buf"]
+            if t == "unknown_pin_names_node":
+                # instance u.v exists; instance u is then declared with the connection key "v.o" / "v.p" (no pin of its
+                # cell, but u.v.o / u.v.p are nodes): the call must be refused whatever those nodes could be wired to
+                b0 = f"fb{len(ops)}"
+                host = rng.choice(["u", "w", f"T{len(ops)}"])
+                ops.append({"op": "add", "n": b0, "type": "buf", "uid": False, "output": True})
+                live.append(b0)
+                ltype[b0] = "buf"
+                ops.append({"op": "add_blackbox", "bb": BBDEFS[1], "name": f"{host}.v", "connections": {}})
+                ops.append({"op": "add_blackbox", "bb": rng.choice([BBDEFS[0], BBDEFS[2]]), "name": host, "connections": {"v.o": b0} if rng.random() < 0.6 else {"v.p": pick()}})
+                insts += [f"{host}.v", host]
+                continue
             if t == "fresh_bufs_then_bbout":
                 b0, b1 = f"fb{len(ops)}", f"fc{len(ops)}"
                 ops.append({"op": "add", "n": b0, "type": "buf", "uid": False, "output": True})
@@ -209,8 +223,10 @@ def gen(rng, ctx):
             for p in bb["inputs"] + bb["outputs"]:
                 if rng.random() < 0.5:
                     conns[p] = pick()
-            if rng.random() < 0.1:
-                conns["nopin"] = pick()
+            if rng.random() < 0.15:
+                # a key that is no pin of the cell - preferably one for which <name>.<key> is the name of another node
+                cand = sorted({x[len(name) + 1:] for x in live if x.startswith(name + ".")} - set(bb["inputs"] + bb["outputs"]))
+                conns[rng.choice(cand) if cand and rng.random() < 0.7 else "nopin"] = pick()
             ops.append({"op": "add_blackbox", "bb": bb, "name": name, "connections": conns})
             if rng.random() < 0.15:
                 ops[-1]["rep"] = rng.choice(["tuple", "set", "frozenset"])
@@ -312,6 +328,16 @@ def check(case, ctx):
         c = G.build(cg, case["start"], "graph")
     else:
         c = cg.Circuit(name="h")
+    src = src_state = None
+    if case["start"] and case["start"]["bbs"]:
+        # the history runs on a circuit derived from another one (copy / strip_* / relabel): the two are separate
+        # objects from then on, and the one the history does not touch must keep its graph and its instance records
+        how = ["none", "none", "copy", "strip_inputs", "strip_outputs", "strip_io", "relabel"][zlib.crc32(repr(sorted(case["start"]["bbs"])).encode() + bytes([len(case["start"]["nodes"]) % 251])) % 7]
+        if how != "none":
+            src = c
+            c = c.copy() if how == "copy" else cg.tx.relabel(src, {}) if how == "relabel" else getattr(cg.tx, how)(src)
+            src_state = state(src)
+            ctx.count(f"start_derived_by:{how}")
     kids = [G.build(cg, cd, "graph") for cd in case["children"]]
     bbobjs = {}
     removed_by_caller = set()
@@ -374,6 +400,14 @@ def check(case, ctx):
             ok, r = ctx.call(c.add_blackbox, bbobjs[b["name"]], op["name"], {k_: as_rep(v_, op.get("rep")) for k_, v_ in op["connections"].items()})
             label = f"add_blackbox({b['name']},{op['name']!r},{op['connections']})"
             key = k
+            nopins = [k_ for k_ in op["connections"] if k_ not in b["inputs"] + b["outputs"]]
+            if nopins:
+                ctx.count("add_blackbox_with_unknown_pin")
+                if any(f"{op['name']}.{k_}" in types for k_ in nopins):
+                    ctx.count("add_blackbox_unknown_pin_names_other_node")
+                if ok:
+                    ctx.violation("unknown_pin_accepted_by_add_blackbox", f"{label}: connection key(s) {nopins} are no pins of cell {b['name']} ({b['inputs']} -> {b['outputs']}), the call must be refused", extra={"step": step, "site": k})
+                    return
             if ok:
                 removed_by_caller -= {f"{op['name']}.{p}" for p in b["inputs"] + b["outputs"]}
         elif k == "add_subcircuit":
@@ -403,6 +437,9 @@ def check(case, ctx):
             if taken:
                 ctx.violation(f"instance_name_clash_accepted_by_{key}", f"{what}: instance name(s) {taken} were already registered, the call must be refused", extra={"step": step, "site": key})
                 return
+        if src is not None and state(src) != src_state:
+            ctx.violation("sibling_circuit_changed", f"{what}: the circuit this one was derived from changed with it (shared state)", extra={"step": step, "site": key})
+            return
         probs = invariant(types, edges, bbs, removed_by_caller)
         if probs:
             ctx.violation(f"invariant_after_{key}_{'ok' if ok else 'raise'}", f"{what}: {probs[:3]}", extra={"step": step, "site": key})
@@ -447,7 +484,7 @@ def gates(counters, table, tier):
         for o in ("ok", "rejected"):
             if counters.get(f"{k}:{o}", 0) < 5:
                 out.append(f"{k} never {o} ({counters.get(f'{k}:{o}', 0)})")
-    for k in ("disconnect:ok", "remove:ok", "set_output:ok", "uid_renamed", "uid_storm", "add_uid_with_allow_redefinition", "add_subcircuit_strip_io_false", "connect_rep:iter", "connect_rep:set", "connect_rep:tuple"):
+    for k in ("disconnect:ok", "remove:ok", "set_output:ok", "uid_renamed", "uid_storm", "add_uid_with_allow_redefinition", "add_subcircuit_strip_io_false", "connect_rep:iter", "connect_rep:set", "connect_rep:tuple", "start_derived_by:strip_inputs", "add_blackbox_unknown_pin_names_other_node", "start_derived_by:copy", "start_derived_by:relabel"):
         if counters.get(k, 0) < 5:
             out.append(f"{k} seen {counters.get(k, 0)} times")
     if counters.get("calls", 0) < 10000 and tier == "quick":
